@@ -621,8 +621,22 @@ func runC13Inner(c *C13Case) (res c13Result) { //nolint:cyclop,gocyclo,maintidx
 				continue
 			}
 			closed = true
+			if op.Again > 0 {
+				// the client's own socket refuses the write of Close's Refresh (the link to the
+				// server is gone): Close may report that, but the socket is closed all the same
+				csock.FailWrites(1)
+			}
 			_ = relay.Close()
 			synctest.Wait()
+			csock.FailWrites(0)
+			if op.Again > 0 {
+				if _, werr := relay.WriteTo([]byte("after close"), peer13(0)); werr == nil {
+					fail("write-after-close", "%s: WriteTo succeeds after Close (whose Refresh could not be written)", ctx)
+				}
+				if cerr := relay.Close(); cerr == nil {
+					fail("double-close-no-error", "%s: a second Close returns nil after a Close whose Refresh could not be written", ctx)
+				}
+			}
 			if c.Reader {
 				select {
 				case <-readerDone:
@@ -761,6 +775,8 @@ func genC13(rt *rapid.T) *C13Case {
 			if i < nops-3 {
 				op.Kind = "sleep"
 				op.N = 1
+			} else if rapid.IntRange(0, 2).Draw(rt, "closeWriteFails") == 0 {
+				op.Again = 1 // (for close: the Refresh of Close cannot be written)
 			}
 		}
 		c.Ops = append(c.Ops, op)
